@@ -3,6 +3,17 @@
    validator DegJustify.djust_cfg (hence true, by Proofs.DegGraphProofs).
    Same plan as Proofs.CutInvariant.
 
+   Control dependence (/repo D18): a phi is judged with the control of its block
+   (Propagate.block_ctl: what is known about the branch condition that decides along
+   which edge the block is entered).  The control is read off a degree claim of the
+   CURRENT graph; like every claim it only goes from unknown to known (order
+   [mctl_le]) while the statement skeleton stays ([bext]/[gext]), so the invariant is
+   kept per block: every statement of a block is justified under the block's control
+   in the current graph ([GJ]); a claim made under the control recorded at the start
+   of the block visit stays justified under every later control.  A phi below the top
+   of a statement carries no claim in a validated graph: Model.DegWf.deg_wf excludes
+   such phis ([phi_top_stmt]), and [dejust] has no rule for them.
+
    Part 0: the degree environment. *)
 From Coq Require Import ZArith List Bool Lia.
 Require Import Model.Base Model.Field Model.Ir Model.Propagate Model.Justify Model.DegJustify Model.DegWf Gen.DegreeTable.
@@ -84,8 +95,9 @@ Inductive dejust (un : vname -> bool) (env : denv) : expr -> Prop :=
 | dj_access v acc k : Forall (dejust un env) (acc_exprs acc) ->
     dclaim k (opt_index_adjust acc (denv_degree env v)) -> dejust un env (EAccess v acc k)
 | dj_update v acc rhe k : Forall (dejust un env) (acc_exprs acc) -> dejust un env rhe ->
-    dclaim k (opt_index_adjust acc (ubase un env v (expr_deg rhe))) -> dejust un env (EUpdate v acc rhe k)
-| dj_phi args k : dclaim k (iter_opt (map (denv_degree env) args)) -> dejust un env (EPhi args k).
+    dclaim k (opt_index_adjust acc (ubase un env v (expr_deg rhe))) -> dejust un env (EUpdate v acc rhe k).
+(* no rule for EPhi: a justified expression is phi-free; the phi at the top of an
+   assignment is judged at the statement level ([etop]) *)
 
 Lemma dj_num_inv un env z k : dejust un env (ENum z k) -> dclaim k (Some (DConst, DConst)).
 Proof. intros H. inversion H; subst. auto. Qed.
@@ -113,8 +125,8 @@ Lemma dj_update_inv un env v acc rhe k : dejust un env (EUpdate v acc rhe k) ->
   Forall (dejust un env) (acc_exprs acc) /\ dejust un env rhe /\
   dclaim k (opt_index_adjust acc (ubase un env v (expr_deg rhe))).
 Proof. intros H. inversion H; subst. auto. Qed.
-Lemma dj_phi_inv un env args k : dejust un env (EPhi args k) -> dclaim k (iter_opt (map (denv_degree env) args)).
-Proof. intros H. inversion H; subst. auto. Qed.
+Lemma dj_phi_inv un env args k : dejust un env (EPhi args k) -> False.
+Proof. intros H. inversion H. Qed.
 
 (* ---------- the operators are monotone: a known result only needs known operands ---------- *)
 Lemma opt_range_infix_ext op a a' b b' :
@@ -231,9 +243,28 @@ Proof.
     unfold ubase. destruct (denv_degree env v) as [rv|] eqn:Ev.
     + rewrite (Hle _ _ Ev). apply dext_refl.
     + destruct (un v) eqn:Eu; [|intros r0; discriminate]. rewrite (Hun _ Eu). apply dext_refl.
-  - constructor. eapply dclaim_mono; [|eassumption]. apply iter_opt_ext.
-    clear -Hle. induction args as [|a tl IH]; cbn [map]; constructor; auto. intros r; apply Hle.
 Qed.
+
+Lemma map_degree_ext env env' (args : list vname) :
+  (forall v r, denv_degree env v = Some r -> denv_degree env' v = Some r) ->
+  Forall2 dext (map (denv_degree env) args) (map (denv_degree env') args).
+Proof. intros Hle. induction args as [|a tl IH]; cbn [map]; constructor; auto. intros r; apply Hle. Qed.
+
+(* ---------- the control of a block ---------- *)
+Definition mctl_le (m m' : mctl) : Prop := m = MUnknown \/ m = m'.
+
+Lemma mctl_le_refl m : mctl_le m m. Proof. right. reflexivity. Qed.
+Lemma mctl_le_trans a b c : mctl_le a b -> mctl_le b c -> mctl_le a c.
+Proof. intros [->| ->]; [left; reflexivity|]. auto. Qed.
+
+Lemma phi_adjust_ext m o o' : dext o o' -> dext (phi_adjust m o) (phi_adjust m o').
+Proof.
+  intros H r. destruct m; cbn [phi_adjust]; try discriminate; destruct o as [rg|]; try discriminate;
+    rewrite (H _ eq_refl); auto.
+Qed.
+
+Lemma phi_adjust_mctl m m' o : mctl_le m m' -> dext (phi_adjust m o) (phi_adjust m' o).
+Proof. intros [->| ->]; [intros r; discriminate|apply dext_refl]. Qed.
 
 (* ---------- pd_expr preserves justification; existing claims are stable ---------- *)
 Lemma sc_finish (mk : know -> expr) k o o' b b' e' :
@@ -422,29 +453,81 @@ Proof.
     destruct (sc_finish (fun k0 => EUpdate v acc' rhe' k0) k _ _ b0 b e' (fun _ => eq_refl) (fun _ _ => eq_refl) Hk
                 (opt_index_adjust_ext _ _ _ _ Hsa (ubase_ext un env v _ _ Hsr)) Hfin') as (k' & -> & Hk' & Hst).
     split; [constructor; assumption|exact Hst].
-  - (* phi *)
-    pose proof (dj_phi_inv _ _ _ _ Hj) as Hk. intros Hfin.
-    assert (Hfin' : match iter_opt (map (denv_degree env) args) with
-                    | Some rg => sc_set_deg false (EPhi args k) rg
-                    | None => (false, EPhi args k)
-                    end = (b, e')) by exact Hfin.
-    destruct (sc_finish (fun k0 => EPhi args k0) k _ _ false b e' (fun _ => eq_refl) (fun _ _ => eq_refl) Hk (dext_refl _) Hfin')
+  - (* phi: not below the top of a statement *)
+    destruct (dj_phi_inv _ _ _ _ Hj).
+Qed.
+
+(* the expression at the top of an assignment: a phi is judged under the control m *)
+Definition etop (m : mctl) (e : expr) : Prop :=
+  match e with
+  | EPhi args k => dclaim k (phi_adjust m (iter_opt (map (denv_degree env) args)))
+  | _ => dejust un env e
+  end.
+
+Lemma dejust_etop m e : dejust un env e -> etop m e.
+Proof. intros H. destruct e; try exact H. destruct (dj_phi_inv _ _ _ _ H). Qed.
+
+Lemma pd_top_good m e b e' :
+  Forall agree (update_bases e) -> mctl_le (de_ctl env) m -> etop m e -> pd_expr env e = (b, e') ->
+  etop m e' /\ dstable e e'.
+Proof.
+  intros Hag Hm Hj Hpd.
+  destruct e as [z k|v k|op l r k|op x k|c t f k|n args k|vs k|v acc k|v acc rhe k|args k];
+    try (cbn [etop] in Hj; destruct (pd_expr_good _ Hag Hj _ _ Hpd) as [H1 H2]; split; [apply dejust_etop; exact H1|exact H2]).
+  cbn [etop] in Hj. cbn [pd_expr] in Hpd. destruct Hm as [Hm|Hm].
+  - rewrite Hm in Hpd. cbn [phi_adjust] in Hpd. injection Hpd as <- <-. split; [exact Hj|apply dstable_refl].
+  - rewrite Hm in Hpd.
+    destruct (sc_finish (fun k0 => EPhi args k0) k _ _ false b e' (fun _ => eq_refl) (fun _ _ => eq_refl) Hj (dext_refl _) Hpd)
       as (k' & -> & Hk' & Hst).
-    split; [constructor; exact Hk'|exact Hst].
+    split; [exact Hk'|exact Hst].
 Qed.
 End Expr.
 
 (* ================= Part 2: statements ================= *)
 Definition LL : drange := (DLin, DLin).
 
-Definition dsjust (un : vname -> bool) (env : denv) (s : stmt) : Prop := Forall (dejust un env) (stmt_exprs s).
+(* a statement of a block whose control is m *)
+Definition dsjust (un : vname -> bool) (env : denv) (m : mctl) (s : stmt) : Prop :=
+  match s with
+  | SSubst _ _ _ rhe _ _ => etop un env m rhe
+  | _ => Forall (dejust un env) (stmt_exprs s)
+  end.
 
 Definition def_deg (s : stmt) : option drange :=
   match s with SSubst _ _ _ rhe _ _ => expr_deg rhe | _ => None end.
 
-Lemma dsjust_mono un env env' s :
-  denv_le env env' -> (forall v, un v = true -> denv_degree env' v = None) -> dsjust un env s -> dsjust un env' s.
-Proof. intros Hle Hun H. unfold dsjust in *. rewrite Forall_forall in *. intros e He. eapply dejust_mono; eauto. Qed.
+Lemma etop_mono un env env' m m' e :
+  denv_le env env' -> (forall v, un v = true -> denv_degree env' v = None) -> mctl_le m m' ->
+  etop un env m e -> etop un env' m' e.
+Proof.
+  intros Hle Hun Hm H. destruct e; try (cbn [etop] in *; eapply dejust_mono; eauto).
+  cbn [etop] in *. eapply dclaim_mono; [|exact H]. intros r Hr.
+  apply (phi_adjust_mctl m m' _ Hm). revert r Hr. apply phi_adjust_ext. apply iter_opt_ext.
+  apply map_degree_ext. exact (proj1 Hle).
+Qed.
+
+Lemma dsjust_mono un env env' m m' s :
+  denv_le env env' -> (forall v, un v = true -> denv_degree env' v = None) -> mctl_le m m' ->
+  dsjust un env m s -> dsjust un env' m' s.
+Proof.
+  intros Hle Hun Hm H.
+  destruct s; cbn [dsjust] in *;
+    try (rewrite Forall_forall in *; intros e0 He; eapply dejust_mono; [exact Hle|exact Hun|]; apply H; exact He).
+  eapply etop_mono; eauto.
+Qed.
+
+(* the skeleton the control is read from: a statement stays a branch or stays none,
+   and the claim on a branch condition is stable *)
+Definition cond_of (s : stmt) : option expr := match s with SIf _ c _ _ => Some c | _ => None end.
+Definition oext (a a' : option expr) : Prop :=
+  match a, a' with
+  | Some c, Some c' => dstable c c'
+  | None, None => True
+  | _, _ => False
+  end.
+Definition sext (s s' : stmt) : Prop := oext (cond_of s) (cond_of s').
+
+Lemma oext_refl a : oext a a. Proof. destruct a; cbn; [apply dstable_refl|exact I]. Qed.
 
 Definition la_exprs (args : list logarg) : list expr :=
   flat_map (fun a => match a with LExpr e => [e] | LStr => [] end) args.
@@ -541,8 +624,9 @@ Proof.
       * apply Hall; assumption.
 Qed.
 
-Definition stmt_post (un : vname -> bool) (env : denv) (s : stmt) (b : bool) (s' : stmt) (env' : denv) : Prop :=
-  denv_le env env' /\ dsjust un env s' /\ dext (def_deg s) (def_deg s') /\
+Definition stmt_post (un : vname -> bool) (env : denv) (m : mctl) (s : stmt) (b : bool) (s' : stmt) (env' : denv) : Prop :=
+  sext s s' /\ de_ctl env' = de_ctl env /\
+  denv_le env env' /\ dsjust un env m s' /\ dext (def_deg s) (def_deg s') /\
   (forall w r, denv_degree env' w = Some r ->
      denv_degree env w = Some r \/
      (tgt s' = Some w /\ is_ldef s' = true /\ def_deg s' = Some r) \/
@@ -554,10 +638,10 @@ Definition stmt_post (un : vname -> bool) (env : denv) (s : stmt) (b : bool) (s'
      (forall names t n, sdecl s = Some (names, t) -> is_sig_or_comp t = true -> In n names ->
         denv_degree env' n <> None)).
 
-Lemma post_same_env un env s b s' :
-  dsjust un env s' -> def_deg s = None -> tgt s = None -> sdecl s = None -> stmt_post un env s b s' env.
+Lemma post_same_env un env m s b s' :
+  sext s s' -> dsjust un env m s' -> def_deg s = None -> tgt s = None -> sdecl s = None -> stmt_post un env m s b s' env.
 Proof.
-  intros Hj Hd Ht Hs. split; [apply denv_le_refl|]. split; [exact Hj|]. split; [rewrite Hd; intros r; discriminate|].
+  intros Hx Hj Hd Ht Hs. split; [exact Hx|]. split; [reflexivity|]. split; [apply denv_le_refl|]. split; [exact Hj|]. split; [rewrite Hd; intros r; discriminate|].
   split; [auto|]. split; [auto|]. intros _. split.
   - intros v Hv. congruence.
   - intros names t n Hn. congruence.
@@ -566,20 +650,28 @@ Qed.
 Lemma Forall1 {A} (P : A -> Prop) x : P x -> Forall P [x].
 Proof. intros H. constructor; [exact H|constructor]. Qed.
 
-Lemma pd_stmt_good un env s b s' env' :
-  dsjust un env s -> Forall (agree un env) (stmt_update_bases s) ->
+Lemma pd_decl_names_ctl t : forall names env res, de_ctl (snd (pd_decl_names env res t names)) = de_ctl env.
+Proof.
+  induction names as [|n tl IH]; intros env res; [reflexivity|]. cbn [pd_decl_names].
+  destruct (is_sig_or_comp t); [destruct res|]; unfold denv_set_degree; rewrite IH; reflexivity.
+Qed.
+
+Lemma pd_stmt_good un env m s b s' env' :
+  mctl_le (de_ctl env) m ->
+  dsjust un env m s -> Forall (agree un env) (stmt_update_bases s) ->
   (forall v r0, tgt s = Some v -> is_ldef s = true -> denv_degree env v = Some r0 -> def_deg s = Some r0) ->
   (forall names t n r0, sdecl s = Some (names, t) -> is_sig_or_comp t = true -> In n names ->
      denv_degree env n = Some r0 -> r0 = LL) ->
-  pd_stmt env s = (b, s', env') -> stmt_post un env s b s' env'.
+  pd_stmt env s = (b, s', env') -> stmt_post un env m s b s' env'.
 Proof.
-  intros Hj Hag Hov1 Hov2. unfold dsjust in Hj. unfold stmt_update_bases in Hag.
-  destruct s; cbn [stmt_exprs flat_map] in Hj, Hag; cbn [pd_stmt]; rewrite ?app_nil_r in Hag.
+  intros Hm Hj Hag Hov1 Hov2. unfold stmt_update_bases in Hag.
+  destruct s; cbn [dsjust stmt_exprs flat_map] in Hj, Hag; cbn [pd_stmt]; rewrite ?app_nil_r in Hag.
   - (* declaration *)
-    destruct (pd_decl_names env false t names) as [b1 env1] eqn:Ed. intros [= <- <- <-].
+    pose proof (pd_decl_names_ctl t names env false) as Hctl.
+    destruct (pd_decl_names env false t names) as [b1 env1] eqn:Ed. cbn [snd] in Hctl. intros [= <- <- <-].
     destruct (pd_decl_names_spec t names env false b1 env1
                 (fun Hs n r0 Hin Hd => Hov2 names t n r0 eq_refl Hs Hin Hd) Ed) as (Hle & Hnew & Has & Hb).
-    assert (Hun : True) by exact I.
+    split; [exact I|]. split; [exact Hctl|].
     split; [exact Hle|]. split; [exact Hj|]. split; [apply dext_refl|]. split; [|split].
     + intros w r Hw. destruct (Hnew w r Hw) as [Hold|(Hin & Hs & ->)]; [left; exact Hold|].
       right. right. exists names, t. auto.
@@ -590,26 +682,28 @@ Proof.
   - (* if *)
     apply Forall_cons_iff in Hj as [Hj _].
     destruct (pd_expr env c) as [b1 c'] eqn:E. intros [= <- <- <-].
-    apply post_same_env; try reflexivity. apply Forall1. exact (proj1 (pd_expr_good un env c Hag Hj _ _ E)).
+    destruct (pd_expr_good un env c Hag Hj _ _ E) as [Hj' Hst].
+    apply post_same_env; try reflexivity; [exact Hst|]. apply Forall1. exact Hj'.
   - (* return *)
     apply Forall_cons_iff in Hj as [Hj _].
     destruct (pd_expr env e) as [b1 e1] eqn:E. intros [= <- <- <-].
-    apply post_same_env; try reflexivity. apply Forall1. exact (proj1 (pd_expr_good un env e Hag Hj _ _ E)).
+    apply post_same_env; try reflexivity; try exact I. apply Forall1. exact (proj1 (pd_expr_good un env e Hag Hj _ _ E)).
   - (* substitution *)
-    apply Forall_cons_iff in Hj as [Hj _].
     destruct (pd_expr env rhe) as [b1 rhe'] eqn:E.
-    destruct (pd_expr_good un env rhe Hag Hj _ _ E) as [Hj' Hst].
+    destruct (pd_top_good un env m rhe _ _ Hag Hm Hj E) as [Hj' Hst].
     assert (Hsame : forall b0, stype_is_local stype = false ->
-              stmt_post un env (SSubst m v op rhe sval stype) b0 (SSubst m v op rhe' sval stype) env).
-    { intros b0 El. split; [apply denv_le_refl|]. split; [apply Forall1; exact Hj'|]. split; [exact Hst|].
+              stmt_post un env m (SSubst m0 v op rhe sval stype) b0 (SSubst m0 v op rhe' sval stype) env).
+    { intros b0 El. split; [exact I|]. split; [reflexivity|].
+      split; [apply denv_le_refl|]. split; [exact Hj'|]. split; [exact Hst|].
       split; [auto|]. split; [auto|]. intros _. split.
       - intros v0 _. cbn [is_ldef]. congruence.
       - intros names t n Hn. discriminate. }
     assert (Hasg : forall b0,
-              stmt_post un env (SSubst m v op rhe sval stype) b0 (SSubst m v op rhe' sval stype) (denv_set_assigned env v) \/
+              stmt_post un env m (SSubst m0 v op rhe sval stype) b0 (SSubst m0 v op rhe' sval stype) (denv_set_assigned env v) \/
               stype_is_local stype = false).
     { intros b0. destruct (stype_is_local stype) eqn:El; [left|right; reflexivity].
-      split; [|split; [apply Forall1; exact Hj'|split; [exact Hst|split; [auto|split]]]].
+      split; [exact I|]. split; [reflexivity|].
+      split; [|split; [exact Hj'|split; [exact Hst|split; [auto|split]]]].
       - split; [auto|]. intros w Hw. unfold denv_is_assigned, denv_set_assigned. cbn [de_assigned existsb].
         apply orb_true_iff. right. exact Hw.
       - intros w Hw. unfold denv_is_assigned, denv_set_assigned in Hw. cbn [de_assigned existsb] in Hw.
@@ -627,9 +721,12 @@ Proof.
         destruct (denv_set_degree (denv_set_assigned env v) v rg) as [env2 b2] eqn:Es. cbn [fst] in Hd.
         assert (Ha2 : forall w, denv_is_assigned env2 w = denv_is_assigned (denv_set_assigned env v) w)
           by (unfold denv_set_degree in Es; injection Es as <- _; reflexivity).
+        assert (Hc2 : de_ctl env2 = de_ctl env)
+          by (unfold denv_set_degree in Es; injection Es as <- _; reflexivity).
         intros [= <- <- <-].
-        destruct (Hasg b2) as [(Hle & _ & _ & _ & Hna & Hb)|H]; [|discriminate].
-        split; [|split; [apply Forall1; exact Hj'|split; [exact Hst|split; [|split]]]].
+        destruct (Hasg b2) as [(_ & _ & Hle & _ & _ & _ & Hna & Hb)|H]; [|discriminate].
+        split; [exact I|]. split; [exact Hc2|].
+        split; [|split; [exact Hj'|split; [exact Hst|split; [|split]]]].
         -- split.
            ++ intros w r Hw. rewrite Hd. destruct (vname_eqb v w) eqn:Ev; [|exact Hw].
               apply vname_eqb_eq in Ev. subst w. cbn [tgt is_ldef def_deg] in Hov1.
@@ -650,17 +747,17 @@ Proof.
     destruct (pd_expr env l) as [b1 l'] eqn:El.
     pose proof (proj1 (pd_expr_good un env l Hag1 Hjl _ _ El)) as Hjl'.
     destruct b1.
-    + intros [= <- <- <-]. apply post_same_env; try reflexivity. constructor; [exact Hjl'|apply Forall1; exact Hjr].
+    + intros [= <- <- <-]. apply post_same_env; try reflexivity; try exact I. constructor; [exact Hjl'|apply Forall1; exact Hjr].
     + destruct (pd_expr env r) as [b2 r'] eqn:Er. intros [= <- <- <-].
-      apply post_same_env; try reflexivity. constructor; [exact Hjl'|apply Forall1].
+      apply post_same_env; try reflexivity; try exact I. constructor; [exact Hjl'|apply Forall1].
       exact (proj1 (pd_expr_good un env r Hag2 Hjr _ _ Er)).
   - (* log *)
     destruct (pd_logargs env false args) as [b1 args'] eqn:E. intros [= <- <- <-].
-    apply post_same_env; try reflexivity. exact (pd_logargs_good un env args Hag Hj _ _ _ E).
+    apply post_same_env; try reflexivity; try exact I. exact (pd_logargs_good un env args Hag Hj _ _ _ E).
   - (* assert *)
     apply Forall_cons_iff in Hj as [Hj _].
     destruct (pd_expr env e) as [b1 e1] eqn:E. intros [= <- <- <-].
-    apply post_same_env; try reflexivity. apply Forall1. exact (proj1 (pd_expr_good un env e Hag Hj _ _ E)).
+    apply post_same_env; try reflexivity; try exact I. apply Forall1. exact (proj1 (pd_expr_good un env e Hag Hj _ _ E)).
 Qed.
 
 (* ================= Part 3: the whole statement list ================= *)
@@ -810,9 +907,98 @@ Qed.
 Lemma pd_stmt_ssig env s : ssig (snd (fst (pd_stmt env s))) = ssig s.
 Proof. rewrite <- (ssig_serase (snd (fst (pd_stmt env s)))), pd_stmt_pres. apply ssig_serase. Qed.
 
+(* ---------- the control of a block only grows ---------- *)
+Definition dflt_stmt : stmt := SLog {| m_start := 0%N; m_end := 0%N; m_file := None |} [].
+Definition last_c (b : block) : option expr := cond_of (last (b_stmts b) dflt_stmt).
+Definition dec_of (o : option expr) : decider := match o with Some c => DecCond c | None => DecOpaque end.
+
+Lemma last_cond_c b : last_cond b = dec_of (last_c b).
+Proof. unfold last_cond, last_c, dflt_stmt. destruct (last (b_stmts b) _); reflexivity. Qed.
+
+Lemma ctl_dec_mono a a' : oext a a' -> mctl_le (ctl_of (dec_of a)) (ctl_of (dec_of a')).
+Proof.
+  destruct a as [c0|], a' as [c1|]; cbn [oext dec_of ctl_of]; try contradiction.
+  - intros H. destruct (expr_deg c0) as [rg|] eqn:E; [|left; reflexivity]. rewrite (H _ E). apply mctl_le_refl.
+  - intros _. apply mctl_le_refl.
+Qed.
+
+(* same index, same predecessors, a stable deciding condition *)
+Definition bext (b b' : block) : Prop :=
+  b_index b = b_index b' /\ b_preds b = b_preds b' /\ oext (last_c b) (last_c b').
+Definition gext : list block -> list block -> Prop := Forall2 bext.
+
+Lemma bext_refl b : bext b b.
+Proof. split; [reflexivity|]. split; [reflexivity|apply oext_refl]. Qed.
+Lemma gext_refl bs : gext bs bs.
+Proof. induction bs; constructor; [apply bext_refl|assumption]. Qed.
+
+Lemma Forall2_nth_error {A} (R : A -> A -> Prop) l l' n : Forall2 R l l' ->
+  match nth_error l n, nth_error l' n with
+  | Some x, Some y => R x y
+  | None, None => True
+  | _, _ => False
+  end.
+Proof. intros H. revert n. induction H as [|x y l l' Hxy H IH]; intros [|n]; cbn; try exact I; [exact Hxy|apply IH]. Qed.
+
+Lemma Forall2_imp {A} (R R' : A -> A -> Prop) l l' : (forall x y, R x y -> R' x y) -> Forall2 R l l' -> Forall2 R' l l'.
+Proof. intros HR H. induction H; constructor; auto. Qed.
+
+Lemma Forall2_transfer {A} (R : A -> A -> Prop) (P Q : A -> Prop) l l' :
+  Forall2 R l l' -> (forall x y, R x y -> P x -> Q y) -> Forall P l -> Forall Q l'.
+Proof.
+  intros H HR. induction H; intros HP; [constructor|].
+  apply Forall_cons_iff in HP as [H1 H2]. constructor; eauto.
+Qed.
+
+Lemma block_ctl_mono idom bs bs' b b' :
+  gext bs bs' -> bext b b' -> mctl_le (block_ctl bs idom b) (block_ctl bs' idom b').
+Proof.
+  intros Hg (Hi & Hp & Hl). unfold block_ctl, deciding. rewrite <- Hi, <- Hp.
+  destruct (Nat.ltb (length (b_preds b)) 2); [apply mctl_le_refl|].
+  destruct (existsb (fun q => N.leb (b_index b) q) (b_preds b)); [rewrite !last_cond_c; apply ctl_dec_mono; exact Hl|].
+  destruct (nth_error idom (N.to_nat (b_index b))) as [[d|]|]; try apply mctl_le_refl.
+  pose proof (Forall2_nth_error _ _ _ (N.to_nat d) Hg) as Hn.
+  destruct (nth_error bs (N.to_nat d)) as [bd|], (nth_error bs' (N.to_nat d)) as [bd'|]; try contradiction;
+    [|apply mctl_le_refl].
+  rewrite !last_cond_c. apply ctl_dec_mono. exact (proj2 (proj2 Hn)).
+Qed.
+
+Lemma last_cons_ne {A} (a : A) l d : l <> [] -> last (a :: l) d = last l d.
+Proof. destruct l; [congruence|reflexivity]. Qed.
+
+Lemma last_mid {A} (X : list A) s Y d : last (X ++ s :: Y) d = last (s :: Y) d.
+Proof.
+  induction X as [|a tl IH]; [reflexivity|]. cbn [app]. rewrite last_cons_ne; [exact IH|].
+  destruct tl; discriminate.
+Qed.
+
+Lemma bext_step blk SA s s' SC : sext s s' -> bext (set_stmts blk (SA ++ s :: SC)) (set_stmts blk (SA ++ s' :: SC)).
+Proof.
+  intros H. split; [reflexivity|]. split; [reflexivity|]. unfold last_c. cbn [set_stmts b_stmts].
+  rewrite !last_mid. destruct SC as [|x tl]; [exact H|]. rewrite !last_cons_ne by discriminate. apply oext_refl.
+Qed.
+
+Lemma gext_mid B1 x x' B2 : bext x x' -> gext (B1 ++ x :: B2) (B1 ++ x' :: B2).
+Proof. intros H. apply Forall2_app; [apply gext_refl|]. constructor; [exact H|apply gext_refl]. Qed.
+
+Lemma set_stmts_id b : set_stmts b (b_stmts b) = b.
+Proof. destruct b; reflexivity. Qed.
+
+Lemma all_stmts_mid B1 blk X B2 : all_stmts (B1 ++ set_stmts blk X :: B2) = all_stmts B1 ++ X ++ all_stmts B2.
+Proof. rewrite all_stmts_app, all_stmts_cons. reflexivity. Qed.
+
+Lemma etop_mctl un env m m' e : mctl_le m m' -> etop un env m e -> etop un env m' e.
+Proof.
+  intros Hm H. destruct e; try exact H. cbn [etop] in *. eapply dclaim_mono; [|exact H]. apply phi_adjust_mctl. exact Hm.
+Qed.
+
+Lemma dsjust_mctl un env m m' s : mctl_le m m' -> dsjust un env m s -> dsjust un env m' s.
+Proof. intros Hm H. destruct s; try exact H. cbn [dsjust] in *. eapply etop_mctl; eauto. Qed.
+
 Section Lists.
 Variable c : cfg.
 Variable L : list ssg.
+Variable idom : list (option N).
 Hypothesis HWF : sgs_wf c [] L = true.
 Hypothesis HU : uniq (map sq L).
 
@@ -861,8 +1047,30 @@ Definition Pre (A : list stmt) (env : denv) : Prop :=
   (forall s names t n, In s A -> sdecl s = Some (names, t) -> is_sig_or_comp t = true -> In n names ->
      denv_degree env n <> None).
 
-Definition DInv (ss : list stmt) (env : denv) : Prop :=
-  Forall (dsjust un env) ss /\ Backed ss env /\ map ssig ss = L.
+Definition DInv0 (ss : list stmt) (env : denv) : Prop := Backed ss env /\ map ssig ss = L.
+
+Lemma Backed_un ss env : Backed ss env -> map ssig ss = L -> forall v, un v = true -> denv_degree env v = None.
+Proof.
+  intros (E1 & _) HL v Hv. destruct (denv_degree env v) as [r|] eqn:E; [|reflexivity].
+  apply E1 in E. rewrite (un_vrange_none _ v HL Hv) in E. discriminate.
+Qed.
+
+(* every statement of a block is justified under the block's control in the current graph *)
+Definition GJ (bs : list block) (env : denv) : Prop :=
+  Forall (fun b => Forall (dsjust un env (block_ctl bs idom b)) (b_stmts b)) bs.
+
+Definition brel (bs : list block) (env env' : denv) (b b' : block) : Prop :=
+  bext b b' /\
+  forall m, mctl_le (block_ctl bs idom b) m -> Forall (dsjust un env m) (b_stmts b) -> Forall (dsjust un env' m) (b_stmts b').
+
+Lemma GJ_transfer bs bs' env env' : Forall2 (brel bs env env') bs bs' -> GJ bs env -> GJ bs' env'.
+Proof.
+  intros H2.
+  assert (Hg : gext bs bs') by (eapply Forall2_imp; [|exact H2]; intros x y H; exact (proj1 H)).
+  unfold GJ. apply (Forall2_transfer _ _ _ _ _ H2). intros b b' (Hbe & Hall) HP.
+  apply Hall; [apply block_ctl_mono; assumption|].
+  eapply Forall_impl; [|exact HP]. intros t. apply dsjust_mctl. apply block_ctl_mono; assumption.
+Qed.
 
 Lemma Pre_mono A env env' : denv_le env env' -> Pre A env -> Pre A env'.
 Proof.
@@ -877,9 +1085,9 @@ Proof. split; [intros s v []|intros s names t n []]. Qed.
 
 (* the flag read by an element-wise update agrees with the static predicate *)
 Lemma agree_at A s B env :
-  DInv (A ++ s :: B) env -> Pre A env -> Forall (agree un env) (stmt_update_bases s).
+  DInv0 (A ++ s :: B) env -> Pre A env -> Forall (agree un env) (stmt_update_bases s).
 Proof.
-  intros (_ & (E1 & E2 & E3) & HL) [P1 P2]. apply Forall_forall. intros v Hv Hnone.
+  intros ((E1 & E2 & E3) & HL) [P1 P2]. apply Forall_forall. intros v Hv Hnone.
   pose proof HWF as Hwf. rewrite <- HL, map_app in Hwf. cbn [map] in Hwf.
   apply sgs_wf_at in Hwf as [_ Hub]. rewrite app_nil_r in Hub. rewrite forallb_forall in Hub.
   specialize (Hub v Hv). destruct (un v) eqn:Eun; cbn [negb].
@@ -925,15 +1133,18 @@ Proof.
 Qed.
 
 
-(* replacing one statement by its propagated version keeps the invariant *)
-Lemma dstep_inv A s B env b s' env' :
-  DInv (A ++ s :: B) env -> Pre A env -> pd_stmt env s = (b, s', env') ->
-  DInv (A ++ s' :: B) env' /\ denv_le env env' /\ (b = false -> Pre (A ++ [s']) env').
+(* replacing one statement by its propagated version keeps the invariant; m: any control
+   of the statement's block not below the one recorded in the environment *)
+Lemma dstep_inv A s B env m b s' env' :
+  DInv0 (A ++ s :: B) env -> Pre A env -> mctl_le (de_ctl env) m -> dsjust un env m s ->
+  pd_stmt env s = (b, s', env') ->
+  DInv0 (A ++ s' :: B) env' /\ denv_le env env' /\ (b = false -> Pre (A ++ [s']) env') /\
+  dsjust un env' m s' /\ (forall m0 t, dsjust un env m0 t -> dsjust un env' m0 t) /\
+  sext s s' /\ de_ctl env' = de_ctl env.
 Proof.
-  intros Hi Hpre Hpd. pose proof (agree_at A s B env Hi Hpre) as Hag.
-  destruct Hi as (Hj & (E1 & E2 & E3) & HL).
+  intros Hi Hpre Hm Hjs Hpd. pose proof (agree_at A s B env Hi Hpre) as Hag.
+  destruct Hi as ((E1 & E2 & E3) & HL).
   assert (Hins : In s (A ++ s :: B)) by (apply in_or_app; right; left; reflexivity).
-  assert (Hjs : dsjust un env s) by (rewrite Forall_forall in Hj; apply Hj; exact Hins).
   assert (Hsig : ssig s' = ssig s) by (pose proof (pd_stmt_ssig env s) as H; rewrite Hpd in H; exact H).
   assert (HL' : map ssig (A ++ s' :: B) = L) by (rewrite <- HL, !map_app; cbn [map]; rewrite Hsig; reflexivity).
   assert (Hov1 : forall v r0, tgt s = Some v -> is_ldef s = true -> denv_degree env v = Some r0 -> def_deg s = Some r0).
@@ -944,7 +1155,7 @@ Proof.
                  denv_degree env n = Some r0 -> r0 = LL).
   { intros names t n r0 Hs Ht Hn Hd. apply E1 in Hd. destruct (decl_facts _ s names t n HL Hins Hs Hn) as [Hp Hdl].
     rewrite (vrange_sig c _ n t Hp Hdl Ht) in Hd. congruence. }
-  destruct (pd_stmt_good un env s b s' env' Hjs Hag Hov1 Hov2 Hpd) as (Hle & Hjs' & Hdd & Hnew & Hnewa & Hpre').
+  destruct (pd_stmt_good un env m s b s' env' Hm Hjs Hag Hov1 Hov2 Hpd) as (Hse & Hctl & Hle & Hjs' & Hdd & Hnew & Hnewa & Hpre').
   assert (Hdef : forall u, defines u s' = defines u s) by (intros u; rewrite !defines_ssig, Hsig; reflexivity).
   assert (Hex : forall w, existsb (defines w) (A ++ s' :: B) = existsb (defines w) (A ++ s :: B))
     by (intros w; rewrite !existsb_app; cbn [existsb]; rewrite Hdef; reflexivity).
@@ -971,12 +1182,10 @@ Proof.
   assert (Hun' : forall v, un v = true -> denv_degree env' v = None).
   { intros v Hv. destruct (denv_degree env' v) as [r|] eqn:E; [|reflexivity].
     apply E1' in E. rewrite (un_vrange_none _ v HL' Hv) in E. discriminate. }
-  split; [|split; [exact Hle|]].
-  - split; [|split; [split; [exact E1'|split]|exact HL']].
-    + rewrite Forall_forall in *. intros t Ht. apply in_app_or in Ht as [Ht|[<-|Ht]].
-      * eapply dsjust_mono; [exact Hle|exact Hun'|]. apply Hj. apply in_or_app. left. exact Ht.
-      * eapply dsjust_mono; [exact Hle|exact Hun'|exact Hjs'].
-      * eapply dsjust_mono; [exact Hle|exact Hun'|]. apply Hj. apply in_or_app. right. right. exact Ht.
+  assert (Htr : forall m0 t, dsjust un env m0 t -> dsjust un env' m0 t).
+  { intros m0 t Ht. eapply dsjust_mono; [exact Hle|exact Hun'|apply mctl_le_refl|exact Ht]. }
+  split; [|split; [exact Hle|split; [|split; [exact (Htr _ _ Hjs')|split; [exact Htr|split; [exact Hse|exact Hctl]]]]]].
+  - split; [split; [exact E1'|split]|exact HL'].
     + intros w Hw. rewrite Hex. destruct (Hnewa w Hw) as [Hold|[Ht Hl]]; [apply E2; exact Hold|].
       rewrite <- Hex. rewrite existsb_app. cbn [existsb]. replace (defines w s') with true; [rewrite orb_true_r; reflexivity|].
       symmetry. apply defines_tgt. exact Ht.
@@ -989,64 +1198,122 @@ Proof.
       eapply Q2; eauto. rewrite <- (ssig_sdecl _ _ Hsig). exact Hs.
 Qed.
 
-(* a block body: prefix A already visited in this pass, suffix C untouched *)
-Lemma dstmts_inv : forall ss2 A C env res b ss2' env',
-  DInv (A ++ ss2 ++ C) env -> (res = false -> Pre A env) ->
-  pd_stmts env res ss2 = (b, ss2', env') ->
-  DInv (A ++ ss2' ++ C) env' /\ denv_le env env' /\ (b = false -> Pre (A ++ ss2') env').
+(* the same at the level of the graph: statement s of block blk, between the statements SA
+   already visited in this block visit and SC *)
+Lemma gstep B1 blk B2 SA s SC env b s' env' :
+  DInv0 (all_stmts (B1 ++ set_stmts blk (SA ++ s :: SC) :: B2)) env ->
+  GJ (B1 ++ set_stmts blk (SA ++ s :: SC) :: B2) env ->
+  Pre (all_stmts B1 ++ SA) env ->
+  mctl_le (de_ctl env) (block_ctl (B1 ++ set_stmts blk (SA ++ s :: SC) :: B2) idom (set_stmts blk (SA ++ s :: SC))) ->
+  pd_stmt env s = (b, s', env') ->
+  DInv0 (all_stmts (B1 ++ set_stmts blk (SA ++ s' :: SC) :: B2)) env' /\
+  GJ (B1 ++ set_stmts blk (SA ++ s' :: SC) :: B2) env' /\
+  denv_le env env' /\ (b = false -> Pre ((all_stmts B1 ++ SA) ++ [s']) env') /\
+  mctl_le (de_ctl env') (block_ctl (B1 ++ set_stmts blk (SA ++ s' :: SC) :: B2) idom (set_stmts blk (SA ++ s' :: SC))).
 Proof.
-  induction ss2 as [|s tl IH]; intros A C env res b ss2' env' Hi Hp; cbn [pd_stmts].
-  - intros [= <- <- <-]. split; [exact Hi|]. split; [apply denv_le_refl|]. rewrite app_nil_r. exact Hp.
-  - destruct res.
-    + intros [= <- <- <-]. split; [exact Hi|]. split; [apply denv_le_refl|discriminate].
-    + destruct (pd_stmt env s) as [[b1 s'] env1] eqn:Es.
-      destruct (pd_stmts env1 b1 tl) as [[b2 tl'] env2] eqn:Et. intros [= <- <- <-].
-      change (A ++ (s :: tl) ++ C) with (A ++ s :: (tl ++ C)) in Hi.
-      destruct (dstep_inv A s (tl ++ C) env b1 s' env1 Hi (Hp eq_refl) Es) as (Hi1 & Hle1 & Hp1).
-      assert (Happ : forall X, (A ++ [s']) ++ X = A ++ s' :: X) by (intros X; rewrite <- app_assoc; reflexivity).
-      assert (Hi1' : DInv ((A ++ [s']) ++ tl ++ C) env1) by (rewrite Happ; exact Hi1).
-      destruct (IH (A ++ [s']) C env1 b1 b2 tl' env2 Hi1' Hp1 Et) as (Hi2 & Hle2 & Hp2).
-      rewrite Happ in Hi2, Hp2. change (A ++ (s' :: tl') ++ C) with (A ++ s' :: (tl' ++ C)).
-      split; [exact Hi2|]. split; [eapply denv_le_trans; eauto|exact Hp2].
+  intros Hi HJ Hpre Hm Hpd.
+  assert (Hflat : forall x, all_stmts (B1 ++ set_stmts blk (SA ++ x :: SC) :: B2) = (all_stmts B1 ++ SA) ++ x :: (SC ++ all_stmts B2)).
+  { intros x. rewrite all_stmts_mid, <- !app_assoc. reflexivity. }
+  rewrite Hflat in Hi.
+  assert (Hjs : dsjust un env (block_ctl (B1 ++ set_stmts blk (SA ++ s :: SC) :: B2) idom (set_stmts blk (SA ++ s :: SC))) s).
+  { pose proof HJ as H. unfold GJ in H. apply Forall_elt in H. cbn [set_stmts b_stmts] in H. apply Forall_elt in H. exact H. }
+  destruct (dstep_inv _ s _ env _ b s' env' Hi Hpre Hm Hjs Hpd) as (HD & Hle & Hp' & Hjs' & Htr & Hse & Hctl).
+  assert (Hbe : bext (set_stmts blk (SA ++ s :: SC)) (set_stmts blk (SA ++ s' :: SC))) by (apply bext_step; exact Hse).
+  assert (Hge : gext (B1 ++ set_stmts blk (SA ++ s :: SC) :: B2) (B1 ++ set_stmts blk (SA ++ s' :: SC) :: B2))
+    by (apply gext_mid; exact Hbe).
+  split; [rewrite Hflat; exact HD|]. split; [|split; [exact Hle|split; [exact Hp'|]]].
+  - apply (GJ_transfer (B1 ++ set_stmts blk (SA ++ s :: SC) :: B2) _ env env'); [|exact HJ].
+    assert (Hsame : forall l, Forall2 (brel (B1 ++ set_stmts blk (SA ++ s :: SC) :: B2) env env') l l).
+    { induction l as [|x tl IH]; constructor; [|exact IH]. split; [apply bext_refl|].
+      intros m0 _ HF. eapply Forall_impl; [|exact HF]. intros t. apply Htr. }
+    apply Forall2_app; [apply Hsame|]. constructor; [|apply Hsame].
+    split; [exact Hbe|]. intros m0 Hm0 HF. cbn [set_stmts b_stmts] in *.
+    apply Forall_app in HF as [HA HC]. apply Forall_cons_iff in HC as [Hs HC].
+    apply Forall_app. split; [eapply Forall_impl; [|exact HA]; intros t; apply Htr|].
+    constructor; [|eapply Forall_impl; [|exact HC]; intros t; apply Htr].
+    destruct (dstep_inv _ s _ env m0 b s' env' Hi Hpre (mctl_le_trans _ _ _ Hm Hm0) Hs Hpd) as (_ & _ & _ & H & _). exact H.
+  - rewrite Hctl. eapply mctl_le_trans; [exact Hm|]. apply block_ctl_mono; assumption.
 Qed.
 
-(* one pass over the blocks *)
-Lemma dblocks_inv : forall bs2 bs1 env res b bs2' env',
-  DInv (all_stmts (bs1 ++ bs2)) env -> (res = false -> Pre (all_stmts bs1) env) ->
-  pd_blocks env res bs2 = (b, bs2', env') ->
-  DInv (all_stmts (bs1 ++ bs2')) env' /\ denv_le env env' /\ (b = false -> Pre (all_stmts (bs1 ++ bs2')) env').
+(* the statements ss2 of a block visit: SA already visited in this visit, SC untouched *)
+Lemma gstmts : forall ss2 B1 blk B2 SA SC env res b ss2' env',
+  DInv0 (all_stmts (B1 ++ set_stmts blk (SA ++ ss2 ++ SC) :: B2)) env ->
+  GJ (B1 ++ set_stmts blk (SA ++ ss2 ++ SC) :: B2) env ->
+  (res = false -> Pre (all_stmts B1 ++ SA) env) ->
+  mctl_le (de_ctl env) (block_ctl (B1 ++ set_stmts blk (SA ++ ss2 ++ SC) :: B2) idom (set_stmts blk (SA ++ ss2 ++ SC))) ->
+  pd_stmts env res ss2 = (b, ss2', env') ->
+  DInv0 (all_stmts (B1 ++ set_stmts blk (SA ++ ss2' ++ SC) :: B2)) env' /\
+  GJ (B1 ++ set_stmts blk (SA ++ ss2' ++ SC) :: B2) env' /\
+  denv_le env env' /\ (b = false -> Pre (all_stmts B1 ++ SA ++ ss2') env').
 Proof.
-  induction bs2 as [|blk tl IH]; intros bs1 env res b bs2' env' Hi Hp; cbn [pd_blocks].
-  - intros [= <- <- <-]. split; [exact Hi|]. split; [apply denv_le_refl|]. rewrite app_nil_r. exact Hp.
+  induction ss2 as [|s tl IH]; intros B1 blk B2 SA SC env res b ss2' env' Hi HJ Hp Hm; cbn [pd_stmts].
+  - intros [= <- <- <-]. split; [exact Hi|]. split; [exact HJ|]. split; [apply denv_le_refl|].
+    rewrite app_nil_r. exact Hp.
   - destruct res.
-    + intros [= <- <- <-]. split; [exact Hi|]. split; [apply denv_le_refl|discriminate].
-    + destruct (pd_stmts env false (b_stmts blk)) as [[r1 ss'] env1] eqn:Es.
-      destruct (pd_blocks env1 r1 tl) as [[r2 tl'] env2] eqn:Et. intros [= <- <- <-].
-      rewrite all_stmts_app, all_stmts_cons in Hi.
-      destruct (dstmts_inv (b_stmts blk) (all_stmts bs1) (all_stmts tl) env false r1 ss' env1 Hi Hp Es) as (Hi1 & Hle1 & Hp1).
+    + intros [= <- <- <-]. split; [exact Hi|]. split; [exact HJ|]. split; [apply denv_le_refl|discriminate].
+    + destruct (pd_stmt env s) as [[b1 s'] env1] eqn:Es.
+      destruct (pd_stmts env1 b1 tl) as [[b2 tl'] env2] eqn:Et. intros [= <- <- <-].
+      destruct (gstep B1 blk B2 SA s (tl ++ SC) env b1 s' env1 Hi HJ (Hp eq_refl) Hm Es) as (Hi1 & HJ1 & Hle1 & Hp1 & Hm1).
+      assert (Happ : forall X, (SA ++ [s']) ++ X = SA ++ s' :: X) by (intros X; rewrite <- app_assoc; reflexivity).
+      rewrite <- (Happ (tl ++ SC)) in Hi1, HJ1, Hm1.
+      assert (Hp1' : b1 = false -> Pre (all_stmts B1 ++ SA ++ [s']) env1) by (intros H; rewrite app_assoc; exact (Hp1 H)).
+      destruct (IH B1 blk B2 (SA ++ [s']) SC env1 b1 b2 tl' env2 Hi1 HJ1 Hp1' Hm1 Et) as (Hi2 & HJ2 & Hle2 & Hp2).
+      rewrite Happ in Hi2, HJ2, Hp2.
+      split; [exact Hi2|]. split; [exact HJ2|]. split; [eapply denv_le_trans; eauto|exact Hp2].
+Qed.
+
+(* one pass over the blocks: bs1 already visited in this pass *)
+Lemma gblocks : forall bs2 bs1 env res b bs2' env',
+  DInv0 (all_stmts (bs1 ++ bs2)) env -> GJ (bs1 ++ bs2) env -> (res = false -> Pre (all_stmts bs1) env) ->
+  pd_blocks idom env res bs1 bs2 = (b, bs2', env') ->
+  DInv0 (all_stmts (bs1 ++ bs2')) env' /\ GJ (bs1 ++ bs2') env' /\ denv_le env env' /\
+  (b = false -> Pre (all_stmts (bs1 ++ bs2')) env').
+Proof.
+  induction bs2 as [|blk tl IH]; intros bs1 env res b bs2' env' Hi HJ Hp; cbn [pd_blocks].
+  - intros [= <- <- <-]. split; [exact Hi|]. split; [exact HJ|]. split; [apply denv_le_refl|].
+    rewrite app_nil_r. exact Hp.
+  - destruct res.
+    + intros [= <- <- <-]. split; [exact Hi|]. split; [exact HJ|]. split; [apply denv_le_refl|discriminate].
+    + set (env0 := denv_set_ctl env (block_ctl (bs1 ++ blk :: tl) idom blk)).
+      destruct (pd_stmts env0 false (b_stmts blk)) as [[r1 ss'] env1] eqn:Es.
+      destruct (pd_blocks idom env1 r1 (bs1 ++ [set_stmts blk ss']) tl) as [[r2 tl'] env2] eqn:Et. intros [= <- <- <-].
+      assert (Hle0 : denv_le env env0) by (split; intros; assumption).
+      assert (Hun0 : forall v, un v = true -> denv_degree env0 v = None)
+        by (exact (Backed_un _ env (proj1 Hi) (proj2 Hi))).
+      assert (Hid : set_stmts blk ([] ++ b_stmts blk ++ []) = blk) by (rewrite app_nil_r; apply set_stmts_id).
+      assert (Hi0 : DInv0 (all_stmts (bs1 ++ set_stmts blk ([] ++ b_stmts blk ++ []) :: tl)) env0) by (rewrite Hid; exact Hi).
+      assert (HJ0 : GJ (bs1 ++ set_stmts blk ([] ++ b_stmts blk ++ []) :: tl) env0).
+      { rewrite Hid. unfold GJ in *. eapply Forall_impl; [|exact HJ]. intros x Hx.
+        eapply Forall_impl; [|exact Hx]. intros t. apply dsjust_mono; [exact Hle0|exact Hun0|apply mctl_le_refl]. }
+      assert (Hp0 : false = false -> Pre (all_stmts bs1 ++ []) env0) by (intros _; rewrite app_nil_r; exact (Hp eq_refl)).
+      assert (Hm0 : mctl_le (de_ctl env0) (block_ctl (bs1 ++ set_stmts blk ([] ++ b_stmts blk ++ []) :: tl) idom
+                                                     (set_stmts blk ([] ++ b_stmts blk ++ []))))
+        by (rewrite Hid; apply mctl_le_refl).
+      destruct (gstmts (b_stmts blk) bs1 blk tl [] [] env0 false r1 ss' env1 Hi0 HJ0 Hp0 Hm0 Es) as (Hi1 & HJ1 & Hle1 & Hp1).
+      rewrite app_nil_r in Hi1, HJ1. cbn [app] in Hi1, HJ1, Hp1.
       assert (Happ : forall X, (bs1 ++ [set_stmts blk ss']) ++ X = bs1 ++ set_stmts blk ss' :: X)
         by (intros X; rewrite <- app_assoc; reflexivity).
-      assert (Heq : forall X, all_stmts (bs1 ++ set_stmts blk ss' :: X) = all_stmts bs1 ++ ss' ++ all_stmts X).
-      { intros X. rewrite all_stmts_app, all_stmts_cons. reflexivity. }
-      assert (Hi1' : DInv (all_stmts ((bs1 ++ [set_stmts blk ss']) ++ tl)) env1) by (rewrite Happ, Heq; exact Hi1).
+      rewrite <- (Happ tl) in Hi1, HJ1.
       assert (Hp1' : r1 = false -> Pre (all_stmts (bs1 ++ [set_stmts blk ss'])) env1).
-      { intros Hr. rewrite Heq. cbn [all_stmts flat_map]. rewrite app_nil_r. exact (Hp1 Hr). }
-      destruct (IH (bs1 ++ [set_stmts blk ss']) env1 r1 r2 tl' env2 Hi1' Hp1' Et) as (Hi2 & Hle2 & Hp2).
-      rewrite Happ in Hi2, Hp2.
-      split; [exact Hi2|]. split; [eapply denv_le_trans; eauto|exact Hp2].
+      { intros Hr. rewrite all_stmts_mid. cbn [all_stmts flat_map]. rewrite app_nil_r. exact (Hp1 Hr). }
+      destruct (IH (bs1 ++ [set_stmts blk ss']) env1 r1 r2 tl' env2 Hi1 HJ1 Hp1' Et) as (Hi2 & HJ2 & Hle2 & Hp2).
+      rewrite Happ in Hi2, HJ2, Hp2.
+      split; [exact Hi2|]. split; [exact HJ2|].
+      split; [eapply denv_le_trans; [exact Hle0|eapply denv_le_trans; eauto]|exact Hp2].
 Qed.
 
 (* any number of passes *)
 Lemma dpasses_inv : forall k env bs bs' env',
-  DInv (all_stmts bs) env -> degrees_passes k env bs = (bs', env') -> DInv (all_stmts bs') env'.
+  DInv0 (all_stmts bs) env -> GJ bs env -> degrees_passes k idom env bs = (bs', env') ->
+  DInv0 (all_stmts bs') env' /\ GJ bs' env'.
 Proof.
-  induction k as [|k IH]; intros env bs bs' env' Hi; cbn [degrees_passes].
-  - intros [= <- <-]. exact Hi.
-  - destruct (pd_blocks env false bs) as [[rerun bs1] env1] eqn:Ep.
-    destruct (dblocks_inv bs [] env false rerun bs1 env1 Hi (fun _ => Pre_nil env) Ep) as (Hi1 & _ & _).
-    cbn [app] in Hi1. destruct rerun.
-    + intros Hk. exact (IH env1 bs1 bs' env' Hi1 Hk).
-    + intros [= <- <-]. exact Hi1.
+  induction k as [|k IH]; intros env bs bs' env' Hi HJ; cbn [degrees_passes].
+  - intros [= <- <-]. split; assumption.
+  - destruct (pd_blocks idom env false [] bs) as [[rerun bs1] env1] eqn:Ep.
+    destruct (gblocks bs [] env false rerun bs1 env1 Hi HJ (fun _ => Pre_nil env) Ep) as (Hi1 & HJ1 & _ & _).
+    cbn [app] in Hi1, HJ1. destruct rerun.
+    + intros Hk. exact (IH env1 bs1 bs' env' Hi1 HJ1 Hk).
+    + intros [= <- <-]. split; assumption.
 Qed.
 End Lists.
 
@@ -1114,17 +1381,30 @@ Proof.
     unfold ubase, update_base_range. destruct (denv_degree env v) as [rv|] eqn:Ev.
     + rewrite (HE1 _ _ Ev). apply dext_refl.
     + destruct (un v) eqn:Eu; [|intros r; discriminate]. rewrite (Hnone v Eu), <- Hun, Eu. apply dext_refl.
-  - eapply dclaim_check; [exact (dj_phi_inv _ _ _ _ Hj)|]. apply iter_opt_ext.
-    clear Hj. induction args as [|a tl IH]; cbn [map]; constructor; auto. intros r. apply HE1.
+  - destruct (dj_phi_inv _ _ _ _ Hj).
+Qed.
+
+Lemma etop_djust m mm v op rhe sv st : etop un env m rhe -> djust_stmt c' m (SSubst mm v op rhe sv st) = true.
+Proof.
+  intros H. destruct rhe; try (cbn [djust_stmt]; apply dejust_djust; exact H).
+  cbn [etop] in H. cbn [djust_stmt]. eapply dclaim_check; [exact H|]. apply phi_adjust_ext. apply iter_opt_ext.
+  clear H. induction args as [|a tl IH]; cbn [map]; constructor; auto. intros r. apply HE1.
+Qed.
+
+Lemma dsjust_djust m s : dsjust un env m s -> djust_stmt c' m s = true.
+Proof.
+  intros H. destruct s; cbn [dsjust stmt_exprs] in H; try (apply etop_djust; exact H); cbn [djust_stmt].
+  - apply forallb_forall. intros e He. apply dejust_djust. rewrite Forall_forall in H. auto.
+  - apply Forall_cons_iff in H as [H _]. apply dejust_djust. exact H.
+  - apply Forall_cons_iff in H as [H _]. apply dejust_djust. exact H.
+  - apply Forall_cons_iff in H as [H1 H2]. apply Forall_cons_iff in H2 as [H2 _].
+    rewrite (dejust_djust _ H1), (dejust_djust _ H2). reflexivity.
+  - induction args as [|a tl IH]; [reflexivity|]. cbn [forallb]. destruct a as [|x]; cbn [flat_map app] in H.
+    + apply IH. exact H.
+    + apply Forall_cons_iff in H as [H1 H2]. rewrite (dejust_djust _ H1). apply IH. exact H2.
+  - apply Forall_cons_iff in H as [H _]. apply dejust_djust. exact H.
 Qed.
 End Validate.
-
-Lemma djust_stmt_exprs c s : djust_stmt c s = forallb (djust_expr c) (stmt_exprs s).
-Proof.
-  destruct s; cbn [djust_stmt stmt_exprs forallb]; rewrite ?andb_true_r; try reflexivity.
-  induction args as [|a tl IH]; [reflexivity|]. cbn [forallb flat_map]. rewrite IH.
-  destruct a as [|x]; cbn [app forallb]; reflexivity.
-Qed.
 
 (* ---------- the initial state ---------- *)
 Definition kind_range (kind : defkind) : drange :=
@@ -1153,48 +1433,63 @@ Proof.
   exact (H denv0).
 Qed.
 
-Lemma clean_dejust un env e : clean_deg_expr e = true -> dejust un env e.
+Lemma clean_dejust un env e : clean_deg_expr e = true -> phi_free e = true -> dejust un env e.
 Proof.
   induction e as [z k|v k|op l r k IHl IHr|op e k IHe|c t f k IHc IHt IHf|n args k IHargs|vs k IHvs
                   |v acc k IHacc|v acc rhe k IHacc IHrhe|args k] using expr_ind';
-    cbn [clean_deg_expr expr_know]; intros H; apply andb_true_iff in H as [Hk H]; unfold deg_none in Hk;
+    cbn [clean_deg_expr expr_know phi_free]; intros H Hp; apply andb_true_iff in H as [Hk H]; unfold deg_none in Hk;
     destruct (kdeg k) eqn:Ek; try discriminate.
   - constructor. apply dclaim_none. exact Ek.
   - constructor. apply dclaim_none. exact Ek.
-  - apply andb_true_iff in H as [H1 H2]. constructor; auto. apply dclaim_none. exact Ek.
+  - apply andb_true_iff in H as [H1 H2]. apply andb_true_iff in Hp as [P1 P2]. constructor; auto. apply dclaim_none. exact Ek.
   - constructor; auto. apply dclaim_none. exact Ek.
-  - apply andb_true_iff in H as [H H3]. apply andb_true_iff in H as [H1 H2]. constructor; auto. apply dclaim_none. exact Ek.
+  - apply andb_true_iff in H as [H H3]. apply andb_true_iff in H as [H1 H2].
+    apply andb_true_iff in Hp as [Hp P3]. apply andb_true_iff in Hp as [P1 P2]. constructor; auto. apply dclaim_none. exact Ek.
   - constructor; [|apply dclaim_none; exact Ek]. clear Ek. induction args as [|x tl IH]; [constructor|].
-    apply Forall_cons_iff in IHargs as [I1 I2]. apply andb_true_iff in H as [Hx Ht]. constructor; auto.
+    apply Forall_cons_iff in IHargs as [I1 I2]. apply andb_true_iff in H as [Hx Ht]. apply andb_true_iff in Hp as [Px Pt].
+    constructor; auto.
   - constructor; [|apply dclaim_none; exact Ek]. clear Ek. induction vs as [|x tl IH]; [constructor|].
-    apply Forall_cons_iff in IHvs as [I1 I2]. apply andb_true_iff in H as [Hx Ht]. constructor; auto.
+    apply Forall_cons_iff in IHvs as [I1 I2]. apply andb_true_iff in H as [Hx Ht]. apply andb_true_iff in Hp as [Px Pt].
+    constructor; auto.
   - constructor; [|apply dclaim_none; exact Ek]. clear Ek. induction acc as [|x tl IH]; [constructor|].
     destruct x as [x|n]; cbn [acc_exprs flat_map app] in *.
-    + apply Forall_cons_iff in IHacc as [I1 I2]. apply andb_true_iff in H as [Hx Ht]. constructor; auto.
+    + apply Forall_cons_iff in IHacc as [I1 I2]. apply andb_true_iff in H as [Hx Ht]. apply andb_true_iff in Hp as [Px Pt].
+      constructor; auto.
     + auto.
-  - apply andb_true_iff in H as [Hr Ha]. constructor; [|auto|apply dclaim_none; exact Ek]. clear Ek.
+  - apply andb_true_iff in H as [Hr Ha]. apply andb_true_iff in Hp as [Pr Pa].
+    constructor; [|auto|apply dclaim_none; exact Ek]. clear Ek.
     induction acc as [|x tl IH]; [constructor|].
     destruct x as [x|n]; cbn [acc_exprs flat_map app] in *.
-    + apply Forall_cons_iff in IHacc as [I1 I2]. apply andb_true_iff in Ha as [Hx Ht]. constructor; auto.
+    + apply Forall_cons_iff in IHacc as [I1 I2]. apply andb_true_iff in Ha as [Hx Ht]. apply andb_true_iff in Pa as [Px Pt].
+      constructor; auto.
     + auto.
-  - constructor. apply dclaim_none. exact Ek.
+Qed.
+
+Lemma clean_dsjust un env m s : clean_deg_stmt s = true -> phi_top_stmt s = true -> dsjust un env m s.
+Proof.
+  unfold clean_deg_stmt. intros Hc Hp.
+  assert (Hall : forallb phi_free (stmt_exprs s) = true -> Forall (dejust un env) (stmt_exprs s)).
+  { intros Hf. rewrite forallb_forall in Hc, Hf. apply Forall_forall. intros e He. apply clean_dejust; auto. }
+  destruct s; cbn [dsjust]; try (apply Hall; exact Hp).
+  destruct rhe; try (cbn [etop]; cbn [phi_top_stmt stmt_exprs] in Hp; specialize (Hall Hp);
+                     apply Forall_cons_iff in Hall as [Hall _]; exact Hall).
+  cbn [etop]. apply dclaim_none. cbn [stmt_exprs forallb clean_deg_expr expr_know] in Hc.
+  unfold deg_none in Hc. destruct (kdeg k); [discriminate|reflexivity].
 Qed.
 
 (* ================= the universal statement of C20 (degrees) ================= *)
-Theorem degrees_validated_at_every_budget : forall k c bs env,
+Theorem degrees_validated_at_every_budget : forall k idom c bs env,
   deg_wf c = true ->
-  degrees_passes k (denv_init (c_kind c) (c_params c)) (c_blocks c) = (bs, env) ->
-  djust_cfg (set_blocks c bs) = true.
+  degrees_passes k idom (denv_init (c_kind c) (c_params c)) (c_blocks c) = (bs, env) ->
+  djust_cfg (set_blocks c bs) idom = true.
 Proof.
-  intros k c bs env Hwf Hk. unfold deg_wf in Hwf.
+  intros k idom c bs env Hwf Hk. unfold deg_wf in Hwf.
+  apply andb_true_iff in Hwf as [Hwf Hphi].
   apply andb_true_iff in Hwf as [Hwf Hu]. apply andb_true_iff in Hwf as [Hclean Hsg].
   set (L := map ssig (all_stmts (c_blocks c))) in *.
   assert (HU : uniq (map sq L)) by (unfold L; rewrite <- sigq_ssig; apply ldefs_unique_uniq; exact Hu).
-  assert (Hinit : DInv c L (all_stmts (c_blocks c)) (denv_init (c_kind c) (c_params c))).
-  { split; [|split; [split; [|split]|reflexivity]].
-    - apply Forall_forall. intros s Hs. rewrite forallb_forall in Hclean. specialize (Hclean s Hs).
-      unfold clean_deg_stmt in Hclean. rewrite forallb_forall in Hclean.
-      apply Forall_forall. intros e He. apply clean_dejust. auto.
+  assert (Hinit : DInv0 c L (all_stmts (c_blocks c)) (denv_init (c_kind c) (c_params c))).
+  { split; [split; [|split]|reflexivity].
     - intros v r Hv. rewrite denv_init_degree in Hv.
       destruct (existsb (vname_eqb v) (c_params c)) eqn:Ep; [|discriminate]. injection Hv as <-.
       unfold vrange. unfold is_param. rewrite Ep.
@@ -1203,14 +1498,18 @@ Proof.
       destruct (tgt_facts c L Hsg _ s v eq_refl Hin Hd) as [Hp _]. unfold is_param in Hp. congruence.
     - intros v Hv. rewrite denv_init_assigned in Hv. discriminate.
     - intros v Hp. rewrite denv_init_degree. unfold is_param in Hp. rewrite Hp. discriminate. }
-  destruct (dpasses_inv c L Hsg HU k _ _ _ _ Hinit Hk) as (Hj & (E1 & E2 & E3) & HL).
-  unfold djust_cfg. cbn [set_blocks c_blocks]. apply forallb_forall. intros s Hs.
-  rewrite djust_stmt_exprs. apply forallb_forall. intros e He.
-  apply (dejust_djust (set_blocks c bs) (unas c L) env).
+  assert (HJinit : GJ c L idom (c_blocks c) (denv_init (c_kind c) (c_params c))).
+  { unfold GJ. apply Forall_forall. intros b Hb. apply Forall_forall. intros s Hs.
+    assert (Hin : In s (all_stmts (c_blocks c))) by (unfold all_stmts; apply in_flat_map; eauto).
+    rewrite forallb_forall in Hclean, Hphi. apply clean_dsjust; auto. }
+  destruct (dpasses_inv c L idom Hsg HU k _ _ _ _ Hinit HJinit Hk) as (((E1 & E2 & E3) & HL) & HJ).
+  unfold djust_cfg. cbn [set_blocks c_blocks]. apply forallb_forall. intros b Hb.
+  unfold djust_block. cbn [set_blocks c_blocks]. apply forallb_forall. intros s Hs.
+  apply (dsjust_djust (set_blocks c bs) (unas c L) env).
   - intros v. rewrite unassigned_unas, HL. reflexivity.
   - intros v r Hv. rewrite var_range_vrange. apply E1. exact Hv.
   - intros v Hv. rewrite var_range_vrange. exact (un_vrange_none c L (all_stmts bs) v HL Hv).
-  - rewrite Forall_forall in Hj. specialize (Hj s Hs). unfold dsjust in Hj. rewrite Forall_forall in Hj. apply Hj. exact He.
+  - unfold GJ in HJ. rewrite Forall_forall in HJ. specialize (HJ b Hb). rewrite Forall_forall in HJ. apply HJ. exact Hs.
 Qed.
 
 (* ================= Part 5: the whole propagation (value passes first) =================
@@ -1484,6 +1783,41 @@ Proof.
     + cbn [map]. apply IH. exact IHacc.
 Qed.
 
+Lemma phi_free_verase e : phi_free (verase e) = phi_free e.
+Proof.
+  induction e as [z k|v k|op l r k IHl IHr|op e k IHe|c t f k IHc IHt IHf|n args k IHargs|vs k IHvs
+                  |v acc k IHacc|v acc rhe k IHacc IHrhe|args k] using expr_ind';
+    cbn [verase phi_free]; try reflexivity.
+  - rewrite IHl, IHr. reflexivity.
+  - exact IHe.
+  - rewrite IHc, IHt, IHf. reflexivity.
+  - induction args as [|x tl IH]; [reflexivity|].
+    apply Forall_cons_iff in IHargs as [H1 H2]. cbn [map]. rewrite H1, (IH H2). reflexivity.
+  - induction vs as [|x tl IH]; [reflexivity|].
+    apply Forall_cons_iff in IHvs as [H1 H2]. cbn [map]. rewrite H1, (IH H2). reflexivity.
+  - induction acc as [|a tl IH]; [reflexivity|]. destruct a as [x|n]; cbn [acc_exprs flat_map app] in IHacc.
+    + apply Forall_cons_iff in IHacc as [H1 H2]. cbn [map]. rewrite H1, (IH H2). reflexivity.
+    + cbn [map]. apply IH. exact IHacc.
+  - rewrite IHrhe. f_equal.
+    induction acc as [|a tl IH]; [reflexivity|]. destruct a as [x|n]; cbn [acc_exprs flat_map app] in IHacc.
+    + apply Forall_cons_iff in IHacc as [H1 H2]. cbn [map]. rewrite H1, (IH H2). reflexivity.
+    + cbn [map]. apply IH. exact IHacc.
+Qed.
+
+Lemma phi_top_vserase s : phi_top_stmt (vserase s) = phi_top_stmt s.
+Proof.
+  destruct s; cbn [vserase phi_top_stmt stmt_exprs forallb]; rewrite ?phi_free_verase; try reflexivity.
+  - induction dims as [|x tl IH]; [reflexivity|]. cbn [map forallb]. rewrite phi_free_verase, IH. reflexivity.
+  - destruct rhe; cbn [verase phi_top_stmt stmt_exprs forallb]; try reflexivity;
+      match goal with |- phi_free ?a && true = phi_free ?b && true => change a with (verase b) end;
+      rewrite phi_free_verase; reflexivity.
+  - induction args as [|a tl IH]; [reflexivity|]. destruct a as [|x]; cbn [map vlogarg flat_map app forallb]; [exact IH|].
+    rewrite phi_free_verase, IH. reflexivity.
+Qed.
+
+Lemma forallb_phi_top_vserase ss : forallb phi_top_stmt (map vserase ss) = forallb phi_top_stmt ss.
+Proof. induction ss as [|s tl IH]; [reflexivity|]. cbn [map forallb]. rewrite phi_top_vserase, IH. reflexivity. Qed.
+
 Lemma ssig_vserase s : ssig (vserase s) = ssig s.
 Proof.
   unfold ssig. replace (stmt_update_bases (vserase s)) with (stmt_update_bases s); [destruct s; reflexivity|].
@@ -1527,19 +1861,20 @@ Lemma deg_wf_vserase c bs bs' :
   map vserase (all_stmts bs') = map vserase (all_stmts bs) -> deg_wf (set_blocks c bs') = deg_wf (set_blocks c bs).
 Proof.
   intros H. unfold deg_wf. cbn [set_blocks c_blocks]. rewrite !sgs_wf_set_blocks.
-  rewrite <- (forallb_clean_vserase (all_stmts bs')), <- (map_ssig_vserase (all_stmts bs')), <- (ldefs_unique_vserase (all_stmts bs')).
-  rewrite H. rewrite forallb_clean_vserase, map_ssig_vserase, ldefs_unique_vserase. reflexivity.
+  rewrite <- (forallb_clean_vserase (all_stmts bs')), <- (map_ssig_vserase (all_stmts bs')), <- (ldefs_unique_vserase (all_stmts bs')),
+    <- (forallb_phi_top_vserase (all_stmts bs')).
+  rewrite H. rewrite forallb_clean_vserase, map_ssig_vserase, ldefs_unique_vserase, forallb_phi_top_vserase. reflexivity.
 Qed.
 
-Theorem propagate_degrees_validated_at_every_budget : forall kv kd p c c',
-  deg_wf c = true -> propagate kv kd p c = Ok c' -> djust_cfg c' = true.
+Theorem propagate_degrees_validated_at_every_budget : forall kv kd p idom c c',
+  deg_wf c = true -> propagate kv kd p idom c = Ok c' -> djust_cfg c' idom = true.
 Proof.
-  intros kv kd p c c' Hwf. unfold propagate.
+  intros kv kd p idom c c' Hwf. unfold propagate.
   destruct (values_passes kv p [] (c_blocks c)) as [[bs1 env1]| | |] eqn:Ev; try discriminate. cbn [bind].
-  destruct (degrees_passes kd (denv_init (c_kind c) (c_params c)) bs1) as [bs2 env2] eqn:Ed.
+  destruct (degrees_passes kd idom (denv_init (c_kind c) (c_params c)) bs1) as [bs2 env2] eqn:Ed.
   intros [= <-].
   assert (Hwf1 : deg_wf (set_blocks c bs1) = true).
   { rewrite (deg_wf_vserase c (c_blocks c) bs1 (values_passes_vpres p _ _ _ _ _ Ev)).
     destruct c; exact Hwf. }
-  exact (degrees_validated_at_every_budget kd (set_blocks c bs1) bs2 env2 Hwf1 Ed).
+  exact (degrees_validated_at_every_budget kd idom (set_blocks c bs1) bs2 env2 Hwf1 Ed).
 Qed.
